@@ -84,6 +84,19 @@ fn record(slot: &'static str, tag: u32, entry: &'static str, sender: &str, paylo
     LOG.with(|l| l.borrow_mut().push(Rec { slot, tag, entry, sender: sender.to_string(), payload }));
 }
 
+/// what a recording module answers to a message: two events (one of them typed `message`, as SDK modules emit)
+/// and data naming the module — a reply must be handed exactly these
+fn rec_response(slot: &str, tag: u32) -> AppResponse {
+    #[allow(deprecated)]
+    AppResponse {
+        events: vec![
+            cosmwasm_std::Event::new("message").add_attribute("module", slot),
+            cosmwasm_std::Event::new("rec").add_attribute("tag", tag.to_string()),
+        ],
+        data: Some(Binary::from(format!("{}{}", slot, tag).into_bytes())),
+    }
+}
+
 /// every recording module also leaves a trace in the chain storage, so that roll-back is observable
 fn bump(storage: &mut dyn Storage, slot: &str) {
     let key = format!("cnt/{}", slot).into_bytes();
@@ -287,7 +300,7 @@ impl<E: Payload + Debug, Q: Payload + Debug, S: Payload + Debug> Module for Uni<
             Mode::Rec => {
                 record(self.slot, self.tag, "exec", sender.as_str(), msg.payload());
                 bump(storage, self.slot);
-                Ok(AppResponse::default())
+                Ok(rec_response(self.slot, self.tag))
             }
             Mode::Acc => Ok(AppResponse::default()),
             Mode::Fail => bail!("failing module {}", self.slot),
@@ -357,7 +370,7 @@ impl UStargate {
             Mode::Rec => {
                 record("stargate", self.tag, entry, sender.as_str(), p);
                 bump(storage, "stargate");
-                Ok(AppResponse::default())
+                Ok(rec_response("stargate", self.tag))
             }
             Mode::Acc => Ok(AppResponse::default()),
             Mode::Fail => bail!("failing stargate"),
@@ -517,6 +530,8 @@ enum ExecMsg {
     ReplyEmit { items: Items },
     /// issues the queries (kind, payload) one after the other from inside `execute`, ignoring the answers
     Ask { items: Items },
+    /// dispatches the one message as a sub-message with reply_on = always; `reply` records what it was handed
+    Observe { items: Items },
 }
 
 /// message of `instantiate` and `migrate`: the sub-messages to emit (`{}` = none)
@@ -571,6 +586,16 @@ fn run_exec<C: CustomMsg>(
         }
         ExecMsg::Emit { items } => emit(&env, items, custom),
         ExecMsg::Nop {} => Ok(Response::new()),
+        ExecMsg::Observe { items } => {
+            let mut r = Response::new();
+            for (k, h) in items {
+                match mk_msg::<C>(&k, h.as_slice(), env.contract.address.as_str(), custom) {
+                    Some(m) => r = r.add_submessage(SubMsg::reply_always(m, 8).with_payload(to_json_binary(&vec![("observe".to_string(), Binary::default())]).unwrap())),
+                    None => bail!("unknown kind"),
+                }
+            }
+            Ok(r)
+        }
         ExecMsg::ReplyEmit { items } => {
             let nop = WasmMsg::Execute {
                 contract_addr: env.contract.address.to_string(),
@@ -599,6 +624,19 @@ fn run_inst<C: CustomMsg>(env: Env, msg: EmitMsg, custom: &dyn Fn(&[u8]) -> C) -
 
 fn run_reply<C: CustomMsg>(env: Env, msg: Reply, custom: &dyn Fn(&[u8]) -> C) -> Result<Response<C>, AnyError> {
     let items: Items = from_json(&msg.payload)?;
+    if items.len() == 1 && items[0].0 == "observe" {
+        // what the dispatcher is told about its sub-message: outcome, event types in order, data
+        let seen = match &msg.result {
+            cosmwasm_std::SubMsgResult::Ok(r) => {
+                #[allow(deprecated)]
+                let d = r.data.as_ref().map(|b| hex(b.as_slice())).unwrap_or_else(|| "~".into());
+                format!("ok/{}/{}", r.events.iter().map(|e| e.ty.clone()).collect::<Vec<_>>().join("+"), d)
+            }
+            cosmwasm_std::SubMsgResult::Err(_) => "err".to_string(),
+        };
+        record("wasm", msg.id as u32, "reply", "-", seen);
+        return Ok(Response::new());
+    }
     emit(&env, items, custom)
 }
 
@@ -845,7 +883,7 @@ fn run_op(st: &mut Option<Built>, t: &[&str]) -> String {
     if t[0] == "wrapper" {
         return wrapper_op(&t[1..]);
     }
-    let known = ["send-top", "send-sub", "send-sub-from", "query", "query-sub", "sudo", "records", "block", "storage-dump", "init-count", "api-prefix", "wasm-gen"];
+    let known = ["send-top", "send-sub", "send-sub-from", "send-sub-reply", "query", "query-sub", "sudo", "records", "block", "storage-dump", "init-count", "api-prefix", "wasm-gen"];
     if !known.contains(&t[0]) {
         return "bad-op".into();
     }
@@ -888,6 +926,21 @@ fn run_op(st: &mut Option<Built>, t: &[&str]) -> String {
                 }
             };
             outcome(guarded(|| b.app.exec_multi(Addr::unchecked(sender), vec![CosmosMsg::Wasm(msg)])))
+        }
+        "send-sub-reply" => {
+            // send-sub-reply native|lifted KIND H : one sub-message with reply_on always; the reply records what it saw
+            if t.len() != 4 || !(t[1] == "native" || t[1] == "lifted") || t[2] == "wasm" {
+                return "bad-op".into();
+            }
+            let native = t[1] == "native";
+            let Some(items) = pairs(&t[2..]) else { return "bad-op".into() };
+            if items.iter().any(|(k, h)| mk_msg::<Empty>(k, h, "x", &|_| Empty {}).is_none() || (!native && k == "custom")) {
+                return "bad-op".into();
+            }
+            let items: Items = items.into_iter().map(|(k, h)| (k, Binary::from(h))).collect();
+            let target = if native { b.native.clone() } else { b.lifted.clone() };
+            let msg = WasmMsg::Execute { contract_addr: target, msg: to_json_binary(&ExecMsg::Observe { items }).unwrap(), funds: vec![] };
+            outcome(guarded(|| b.app.exec_multi(Addr::unchecked("u1"), vec![CosmosMsg::Wasm(msg)])))
         }
         "query-sub" => {
             // query-sub native|lifted (KIND H)+ : the contract issues the queries from inside one execute call
@@ -1221,7 +1274,22 @@ pub fn gen_route(rng: &mut Rng, thorough: bool) -> Vec<String> {
         for _ in 0..n {
             match rng.below(10) {
                 0..=5 => out.push(send_op(rng)),
-                6 => out.push(format!("query {} {}", rng.pick(&QUERY_KINDS), rng.pick(&PAYLOADS))),
+                6 => {
+                    if rng.chance(1, 2) {
+                        out.push(format!("query {} {}", rng.pick(&QUERY_KINDS), rng.pick(&PAYLOADS)));
+                    } else {
+                        // what a reply is told about a sub-message handled by a (possibly user-supplied) module
+                        let native = rng.chance(1, 2);
+                        let k = loop {
+                            let k = rng.pick(&EXEC_KINDS);
+                            if k != "wasm" && (native || k != "custom") {
+                                break k;
+                            }
+                        };
+                        let h = if k == "gov" { rng.pick(&["01", "0203", "-"]) } else { rng.pick(&PAYLOADS) };
+                        out.push(format!("send-sub-reply {} {} {}", if native { "native" } else { "lifted" }, k, h));
+                    }
+                }
                 7 => {
                     // queries issued by a contract inside one call, with repeats of the very same request
                     let native = rng.chance(1, 2);
